@@ -9,6 +9,12 @@ fn two_drawn() -> Vec<Op> {
     vec![Op::Add, Op::Add, Op::Tick(0), Op::Tick(1)]
 }
 
+/// three bars drawn, limiter exhausted; b finished and dropped while not first, then a dropped:
+/// b now heads the order as a zombie that has not been reaped yet, c is live
+fn deferred_zombie() -> Vec<Op> {
+    vec![Op::Add, Op::Add, Op::Add, Op::Tick(0), Op::Tick(1), Op::Tick(2), Op::Burn(0), Op::Finish(1), Op::DropBar(1), Op::DropBar(0)]
+}
+
 fn pre_logs(n: usize, mut rest: Vec<Op>) -> Vec<Op> {
     let mut v: Vec<Op> = (0..n).map(|_| Op::MpPrintln).collect();
     v.append(&mut rest);
@@ -38,6 +44,16 @@ pub fn c02_configs(tier: Tier) -> Vec<(Cfg, usize)> {
     c.max_bars = 4;
     c.suspend = false;
     c.bar_println = false;
+    v.push((c, d));
+    // rate-limited target, limiter exhausted, a zombie waiting at the head of the order
+    let mut c = Cfg::base("c02-hz1-deferred-zombie", 20, 40);
+    c.hz = Some(1);
+    c.root = pre_logs(2, deferred_zombie());
+    c.max_bars = 4;
+    c.inserts = false;
+    c.suspend = false;
+    c.limiter_ops = true;
+    c.msgs = vec!["m".into()];
     v.push((c, d));
     // two-line template, different finish rotation
     let mut c = Cfg::base("c02-two-line", 20, 40);
@@ -87,6 +103,17 @@ pub fn c03_configs(tier: Tier) -> Vec<(Cfg, usize)> {
     c.msgs = vec!["m".into(), "n".repeat(12)];
     c.align = true;
     c.inserts = false;
+    v.push((c, d));
+    // rate-limited target, limiter exhausted, a zombie waiting at the head of the order
+    let mut c = Cfg::base("c03-hz1-deferred-zombie", 20, 40);
+    c.hz = Some(1);
+    c.root = pre_logs(3, deferred_zombie());
+    c.max_bars = 4;
+    c.inserts = false;
+    c.suspend = false;
+    c.remove = false;
+    c.limiter_ops = true;
+    c.msgs = vec!["m".into()];
     v.push((c, d));
     // bottom alignment with three bars: shrinking regions, padding, text
     let mut c = Cfg::base("c03-bottom-three", 20, 40);
@@ -155,6 +182,19 @@ pub fn c04_configs(tier: Tier) -> Vec<(Cfg, usize)> {
     c.clear = false;
     c.msgs = vec![];
     v.push((c, if tier == Tier::Quick { 4 } else { 6 }));
+    // limiter exhausted and a zombie waiting at the head of the order: its row must survive refused draws
+    let mut c = Cfg::base("c04-hz1-deferred-zombie", 20, 40);
+    c.hz = Some(1);
+    c.root = deferred_zombie();
+    c.max_bars = 3;
+    c.inserts = false;
+    c.suspend = false;
+    c.bar_println = false;
+    c.remove = false;
+    c.clear = false;
+    c.limiter_ops = true;
+    c.msgs = vec!["m".into()];
+    v.push((c, d + 1));
     // finishing a bar that lives in a recycled member slot
     let mut c = Cfg::base("c04-slot-reuse", 20, 40);
     c.root = vec![Op::Add, Op::Add, Op::Add, Op::Tick(0), Op::Tick(1), Op::Tick(2), Op::Finish(1), Op::DropBar(1), Op::DropBar(0), Op::Tick(2), Op::Add, Op::Tick(3)];
